@@ -12,6 +12,7 @@ import (
 	"verif/harness/internal/all"
 	"verif/harness/internal/fp"
 	"verif/harness/internal/pbt"
+	"verif/harness/internal/refl"
 	"verif/harness/internal/script"
 )
 
@@ -26,6 +27,7 @@ type Case struct {
 	Vals  []int       `json:"vals"`  // values handed to the entry point
 	Spare int         `json:"spare"` // spare capacity of the slices handed over
 	Muts  []script.Op `json:"muts"`  // later container mutations
+	Warm  []int       `json:"warm"`  // read-only calls (chosen by these raw integers) made before each snapshot is taken
 }
 
 var d = script.IntDomain
@@ -76,6 +78,17 @@ func check(c Case) (pbt.Info, error) {
 		m.Apply(d, op)
 	}
 	if err := same(h, "after the state-building script"); err != nil {
+		return info, err
+	}
+
+	// read-only calls first, so that any cache or memoised result is warm when the snapshots are taken
+	warm := func() {
+		for _, name := range refl.WarmUp(h.Obj, c.Warm) {
+			pbt.AddToSet("warm-up reads (kind|method)", kind+"|"+name)
+		}
+	}
+	warm()
+	if err := same(h, "after read-only warm-up calls"); err != nil {
 		return info, err
 	}
 
@@ -152,6 +165,7 @@ func check(c Case) (pbt.Info, error) {
 	}
 
 	// (2) later container changes never reach a slice returned earlier, nor the caller's slice
+	warm()
 	snapV := h.Values()
 	snapVfull := slices.Clone(snapV[:cap(snapV)])
 	var snapK, snapKfull []int
@@ -183,6 +197,7 @@ func check(c Case) (pbt.Info, error) {
 	}
 
 	// (4) GetSortedValues / GetSortedValuesFunc: sorted contents, container untouched
+	warm()
 	want := slices.Clone(m.Expect().Values)
 	slices.Sort(want)
 	f1 := fp.Of(h.Obj)
@@ -266,6 +281,7 @@ func gen(kind string) func(t *rapid.T) Case {
 			c.Vals = rapid.SliceOfN(rapid.IntRange(0, n-1), 0, 5).Draw(t, "vals")
 		}
 		c.Muts = script.GenOps(t, kind, n, 8)
+		c.Warm = rapid.SliceOfN(rapid.IntRange(0, 1<<12), 0, 5).Draw(t, "warm")
 		return c
 	}
 }
